@@ -18,7 +18,7 @@ META = dict(
                 'Totality: arbitrary byte strings and request templates with symbolic holes; an escaping C++ exception, an out-of-bounds or uninitialised access is a violation. '
                 'Segmentation: well-formed streams (declared body lengths, pipelined) are cut at symbolic offsets and fed through the same buffer loop as the server; the request sequence must equal the unsegmented one. '
                 'Pipeline: the real server runs on a link seam for network::TcpServer; position/kind of the closing request, which handlers complete inside the callback, the completion order of the others, segment boundary and send-complete timing are symbolic.'
-                ' Extended: the transport seam records the receive threshold the server registers and - like network::BufferedFd - calls back only when at least that much is unconsumed; one job delivers the last 0..24 bytes of a 2-request stream in a segment of their own.',
+                ' Extended: the transport seam records the receive threshold the server registers and - like network::BufferedFd - calls back only when at least that much is unconsumed; one job delivers the last 0..24 bytes of a 2-request stream in a segment of their own. shutdown(SHUT_RD) on the seam has the consequence it has on the real transport (end-of-file -> the connection is dropped and reported as disconnected before any late handler completes).',
     bounds='arbitrary input <= 5 bytes; 6 templates with 1-3 symbolic bytes each; 3 streams with one symbolic cut (two cuts in thorough); pipelines of 2-3 requests (all dimensions symbolic) and 4 requests (completion order and send-complete timing symbolic); tail split: 0..24 bytes',
     outside='fully symbolic long requests; Respond formatting details; real sockets / TcpServer / TcpConnection (link seam); requests without declared body length (the parser takes the rest of the buffer as body by design)',
     assumptions=['TcpServer seam: send() accepts everything while the connection is valid, disconnect() invalidates the token, send-complete is delivered at an arbitrary later moment', 'LogPrintfFunc is a no-op'],
